@@ -142,6 +142,22 @@ def pktCloneM (H : Heap) (p : PacketM) : Heap × PacketM :=
   let r2 := cloneBytes r.1 p.payload
   (r2.1, { header := r.2, payload := r2.2, paddingSize := p.paddingSize })
 
+/-! ### the deprecated fields over the heap: `Packet.Raw` is one more slice header (it may well
+    be the address of the very array the payload lives in — "Raw = the datagram"), and
+    `Header.PayloadOffset` one more scalar.  Clone reads neither array nor header of `Raw`:
+    the clone starts from `&Packet{}`, so its `Raw` is nil; the scalar is copied. -/
+
+structure PacketMD where
+  pkt : PacketM
+  raw : Sl
+  payloadOffset : Nat
+  deriving DecidableEq, Repr, Inhabited
+
+/-- `Packet.Clone` on the whole variable -/
+def pktCloneMD (H : Heap) (p : PacketMD) : Heap × PacketMD :=
+  let r := pktCloneM H p.pkt
+  (r.1, { pkt := r.2, raw := .nil, payloadOffset := p.payloadOffset })
+
 /-! ### the five mutations of C20, as heap operations on one side -/
 
 def modAt {α} (l : List α) (i : Nat) (f : α → α) : List α :=
